@@ -591,8 +591,8 @@ pub fn field_strings<F: Field, Fl: NF>(rng: &mut Rng, vals: &[F], exh: usize, sw
     }
     for _ in 0..10 { v.push(rand_bytes(rng, size)); }
     if all_trunc {
-        // every truncation; for long encodings (towers) every 7th length plus the lengths around each coordinate boundary
-        v.extend(truncations(&base).into_iter().filter(|w| size <= 100 || w.len() % 7 == 0 || w.len() % s0 <= 1 || w.len() % s0 == s0 - 1 || w.len() + 2 >= size));
+        // every truncation; in the quick tier (`sweeps == 1`), for long encodings (towers), every 7th length plus the lengths around each coordinate boundary
+        v.extend(truncations(&base).into_iter().filter(|w| size <= 100 || sweeps > 1 || w.len() % 7 == 0 || w.len() % s0 <= 1 || w.len() % s0 == s0 - 1 || w.len() + 2 >= size));
     } else { v.extend(truncations(&base).into_iter().take(if size > 40 { 12 } else { size + 2 })); }
     dedup(v)
 }
